@@ -244,7 +244,9 @@ func (w *c07World) observe() (string, map[string]string) {
 		}
 		sb.WriteString(fmt.Sprintf("%d.%d.%d,", ai, l.LogType, l.Version))
 	}
-	return sb.String(), f
+	// the pending-write (dirty) key sets of the four storage caches of every account: invisible to the getters above,
+	// decisive for what Finalise publishes. Printed FIRST: a divergence must be visible in the first 300 characters
+	return "D:" + c07DirtyDump(w.am) + " " + sb.String(), f
 }
 
 // ---- the script generator ----------------------------------------------------
@@ -356,9 +358,10 @@ func c07(c *Ctx) {
 	}
 	newWorld() // the reads above filled caches; start from a clean manager
 	type snap struct {
-		id  int
-		obs map[string]string
-		ops []string
+		id    int
+		obs   map[string]string
+		ops   []string
+		dirty [4][4][]string
 	}
 	var live []snap
 	var script []string
@@ -499,8 +502,39 @@ func c07(c *Ctx) {
 				map[string]interface{}{"script": min, "full_script": append([]string{}, script...)})
 		}
 	}
+	// finish: the episode ends regularly. After the redo oracle (which looks at the un-finalised state), the `fin` op:
+	// MergeChangeLogs + Finalise on the real manager, the published list (merged logs, versions, root logs) compared with
+	// the model's `publish`; then the oracle c07/discard-leaves-trace/finalise on the same script.
+	abnormal := false
+	finish := func() {
+		if abnormal || len(script) == 0 {
+			return
+		}
+		p := c07Fin(w.am, w.initRoots)
+		c.Op("fin", p.line)
+		switch {
+		case p.line == "fin err" || p.line == "fin panic":
+			c.Count("op:" + strings.Replace(p.line, " ", ":", 1))
+		case p.line == "fin ":
+			c.Count("op:fin:nothing-published")
+		default:
+			c.Count("op:fin:ok")
+		}
+		if strings.Contains(p.line, ":0>") {
+			c.Count("nontrivial:c07:fin:root-log-from-zero-root")
+		}
+		if strings.Contains(p.line, ":R>") {
+			c.Count("nontrivial:c07:fin:root-log-from-committed-root")
+		}
+		if strings.Contains(p.line, ">E") {
+			c.Count("nontrivial:c07:fin:new-root-is-empty-trie")
+		}
+		c07FinaliseOracle(c, db, gh, w.initRoots, script)
+	}
 	reset := func() {
 		redoAtReset()
+		finish()
+		abnormal = false
 		tainted = map[string]bool{}
 		emptySui = map[string]bool{}
 		newWorld()
@@ -515,6 +549,124 @@ func c07(c *Ctx) {
 		}
 		return "err"
 	}
+	doSnap := func() {
+		id := w.am.Snapshot()
+		_, obs := w.observe()
+		live = append(live, snap{id: id, obs: obs, dirty: c07DirtyKeys(w.am)})
+		c.Count("op:snapshot")
+		emit("snap", fmt.Sprintf("snap %d", id))
+	}
+	// doRevert reverts to live[k]; false = RevertToSnapshot panicked (reported, episode reset)
+	doRevert := func(k int) bool {
+		s := live[k]
+		res, msg := SafeMsg(func() string { w.am.RevertToSnapshot(s.id); return "ok" })
+		c.Count("op:revert:" + res)
+		c.Count(fmt.Sprintf("revert-depth:%d", len(live)-k))
+		if res == "panic" {
+			c.Fail("c07/revert-panic/"+panicClass(msg), fmt.Sprintf("RevertToSnapshot(%d) panicked: %s; ops since snapshot: %v", s.id, msg, s.ops), map[string]interface{}{"script": append(append([]string{}, script...), fmt.Sprintf("rev %d", s.id))})
+			c.Op(fmt.Sprintf("rev %d", s.id), "panic")
+			abnormal = true
+			reset()
+			return false
+		}
+		for _, o := range s.ops {
+			if strings.HasPrefix(o, "w ") && strings.HasSuffix(o, " sui") {
+				tainted[strings.Fields(o)[1]] = true
+			}
+		}
+		_, now := w.observe()
+		for key, want := range s.obs {
+			if now[key] != want {
+				field := key[strings.Index(key, ".")+1:]
+				// classify: does the reverted span contain a SetSuicide on this very account — or was a
+				// SetSuicide on it already reverted earlier in this script (the account then stays damaged:
+				// code object dropped, storage cache reset), so that later snapshots record the damage?
+				acct := key[1:strings.Index(key, ".")]
+				sui := tainted[acct]
+				for _, o := range s.ops {
+					if o == "w "+acct+" sui" {
+						sui = true
+						break
+					}
+				}
+				if sui {
+					field += "/after-suicide-undo"
+				}
+				c.Fail("c07/revert-mismatch/"+field, fmt.Sprintf("after RevertToSnapshot(%d): %s = %s, at snapshot it was %s; ops since snapshot: %v", s.id, key, now[key], want, s.ops),
+					map[string]interface{}{"script": append(append([]string{}, script...), fmt.Sprintf("rev %d", s.id))})
+			}
+		}
+		// the pending-write sets are part of the state a revert has to give back (strict, on the real code): a write that
+		// stays queued is invisible to every getter above and still changes what Finalise publishes
+		nowDirty := c07DirtyKeys(w.am)
+		for i := range c07Addrs {
+			acct := fmt.Sprint(i)
+			sui := tainted[acct]
+			for t := 0; t < 4; t++ {
+				got, want := strings.Join(nowDirty[i][t], ","), strings.Join(s.dirty[i][t], ",")
+				if got == want {
+					continue
+				}
+				if sui {
+					// SetStorageRoot / SetAssetCodeRoot / SetAssetIdRoot reset the caches (listed suicide-undo findings; the model reproduces it)
+					c.Count("revert-dirty:differs-after-suicide-undo(listed)")
+					continue
+				}
+				if t == 1 && c07OnlyNoopAssetCode(w.am, i, s.dirty[i][t], nowDirty[i][t]) {
+					// undoAssetCode / undoAssetCodeState / undoAssetCodeTotalSupply restore through SetAssetCode(code, old): for an asset
+					// that was committed and not queued, a write of its committed value stays queued. The asset-code root of such an
+					// account is not zero, the write does not change the trie: nothing is published (Lean: assetcode_undo_leaves_noop_dirty,
+					// noop_dirty_publishes_nothing). Counted, not failed.
+					c.Count("nontrivial:c07:assetcode-undo-leaves-noop-pending-write")
+					continue
+				}
+				c.Fail("c07/revert-mismatch/dirty/"+c07TrieNames[t], fmt.Sprintf("after RevertToSnapshot(%d): the pending-write (dirty) key set of the %s cache of account %d is {%s}, at the snapshot it was {%s}; ops since snapshot: %v", s.id, c07TrieNames[t], i, got, want, s.ops),
+					map[string]interface{}{"script": append(append([]string{}, script...), fmt.Sprintf("rev %d", s.id))})
+			}
+		}
+		live = live[:k]
+		emit(fmt.Sprintf("rev %d", s.id), "ok")
+		return true
+	}
+	// directed scripts first: the first write of a zero-root account inside a reverted span (see c07Directed)
+	for _, ds := range c07Directed() {
+		ok := true
+		for _, o := range ds {
+			f := strings.Fields(o)
+			switch {
+			case o == "snap":
+				doSnap()
+			case f[0] == "rev":
+				id, _ := strconv.Atoi(f[1])
+				k := -1
+				for i := range live {
+					if live[i].id == id {
+						k = i
+					}
+				}
+				if k < 0 || !doRevert(k) {
+					ok = false
+				}
+			default:
+				res := c07ApplyWrite(w.am, f)
+				c.Count("op:w:" + f[2] + ":" + res)
+				if res == "panic" {
+					c.Op(o, "panic")
+					abnormal = true
+					ok = false
+				} else {
+					emit(o, res)
+				}
+			}
+			if !ok {
+				break
+			}
+		}
+		c.Count("directed-script")
+		if ok || abnormal {
+			reset()
+		}
+	}
 	exactOnly := false
 	for n := 0; n < c.N; n++ {
 		if n%60 == 59 {
@@ -524,56 +676,14 @@ func c07(c *Ctx) {
 		r := c.Rnd.Intn(100)
 		switch {
 		case r < 14:
-			id := w.am.Snapshot()
-			_, obs := w.observe()
-			live = append(live, snap{id: id, obs: obs})
-			c.Count("op:snapshot")
-			emit("snap", fmt.Sprintf("snap %d", id))
+			doSnap()
 		case r < 28 && len(live) > 0:
 			// revert to a live snapshot (usually the newest, sometimes deeper)
 			k := len(live) - 1
 			if c.Rnd.Intn(4) == 0 {
 				k = c.Rnd.Intn(len(live))
 			}
-			s := live[k]
-			res, msg := SafeMsg(func() string { w.am.RevertToSnapshot(s.id); return "ok" })
-			c.Count("op:revert:" + res)
-			c.Count(fmt.Sprintf("revert-depth:%d", len(live)-k))
-			if res == "panic" {
-				c.Fail("c07/revert-panic/"+panicClass(msg), fmt.Sprintf("RevertToSnapshot(%d) panicked: %s; ops since snapshot: %v", s.id, msg, s.ops), map[string]interface{}{"script": append(append([]string{}, script...), fmt.Sprintf("rev %d", s.id))})
-				c.Op(fmt.Sprintf("rev %d", s.id), "panic")
-				reset()
-				continue
-			}
-			for _, o := range s.ops {
-				if strings.HasPrefix(o, "w ") && strings.HasSuffix(o, " sui") {
-					tainted[strings.Fields(o)[1]] = true
-				}
-			}
-			_, now := w.observe()
-			for key, want := range s.obs {
-				if now[key] != want {
-					field := key[strings.Index(key, ".")+1:]
-					// classify: does the reverted span contain a SetSuicide on this very account — or was a
-					// SetSuicide on it already reverted earlier in this script (the account then stays damaged:
-					// code object dropped, storage cache reset), so that later snapshots record the damage?
-					acct := key[1:strings.Index(key, ".")]
-					sui := tainted[acct]
-					for _, o := range s.ops {
-						if o == "w "+acct+" sui" {
-							sui = true
-							break
-						}
-					}
-					if sui {
-						field += "/after-suicide-undo"
-					}
-					c.Fail("c07/revert-mismatch/"+field, fmt.Sprintf("after RevertToSnapshot(%d): %s = %s, at snapshot it was %s; ops since snapshot: %v", s.id, key, now[key], want, s.ops),
-						map[string]interface{}{"script": append(append([]string{}, script...), fmt.Sprintf("rev %d", s.id))})
-				}
-			}
-			live = live[:k]
-			emit(fmt.Sprintf("rev %d", s.id), "ok")
+			doRevert(k)
 		default:
 			ai := c.Rnd.Intn(4)
 			a := w.am.GetAccount(c07Addrs[ai])
@@ -709,6 +819,7 @@ func c07(c *Ctx) {
 			c.Count("op:w:" + strings.Fields(op)[2] + ":" + res)
 			if res == "panic" {
 				c.Op(op, "panic")
+				abnormal = true
 				reset()
 				continue
 			}
